@@ -416,8 +416,15 @@ func genCase(seed int64, idx int, o genOpts) *Case {
 			ap := Step{Kind: sAddPart, Coll: lateColl, Part: pi, Async: true, After: []Dep{stepDep(si)}}
 			if o.partBeforeColl {
 				// the partition watch and the collection watch run on their own goroutines: the partition event may be
-				// handled first (AddPartition then has to wait for the collection's streams)
+				// handled first (AddPartition then has to wait for the collection's streams); the second shard's stream
+				// registers slowly, so that a retry of AddPartition sees the collection half registered
 				ap.After = []Dep{packDep(anchorP, lateAt-1, 0)}
+				if shs := c.Colls[lateColl].Shards; len(shs) >= 2 {
+					if c.RegDelayMs == nil {
+						c.RegDelayMs = map[string]int{}
+					}
+					c.RegDelayMs[shs[1].SrcV] = 1500
+				}
 			}
 			for _, sh := range c.Colls[lateColl].Shards {
 				if o.partBeforeColl {
